@@ -47,7 +47,7 @@ def one(patch: str, with_suite: bool, runs: str | None) -> bool:
         if with_suite and not run_suite(dst):
             print(f"  {name}: mutant is killed by the repository's own suite (still checking ours)")
         env = dict(os.environ, VERIF_REPO=dst, VERIF_NO_EVIDENCE="1")
-        if not os.environ.get("VERIF_WITH_COMPILED"):
+        if not os.environ.get("VERIF_WITH_COMPILED") and os.path.basename(os.path.dirname(patch)) != "mutants_compiled":
             env["VERIF_NO_COMPILED"] = "1"      # (a mypyc build per scratch copy costs ~25 s; opt in)
         if runs:
             env["VERIF_RUNS"] = runs
@@ -79,7 +79,8 @@ def one(patch: str, with_suite: bool, runs: str | None) -> bool:
 def main(cid: str | None) -> int:
     with_suite = os.environ.get("VERIF_SUITE", "0") == "1"
     runs = os.environ.get("VERIF_MUT_RUNS")
-    pats = sorted(glob.glob(os.path.join(MUTANTS, "*.patch")))
+    # mutants_compiled/: changes that only show in a mypyc build of the tree (the checks then build the scratch copy)
+    pats = sorted(glob.glob(os.path.join(MUTANTS, "*.patch")) + glob.glob(os.path.join(MUTANTS + "_compiled", "*.patch")))
     if cid:
         pats = [p for p in pats if os.path.basename(p).upper().startswith(cid.upper() + "-")]
     bad = 0
